@@ -148,6 +148,7 @@ def segment(toks, prefix, out, translated_lines, fnnames):
         cattrs = [c for c in (canon_attr(a) for a in attrs) if c]
         atxt = ''.join(c + ' ' for c in sorted(cattrs))
         htxt = text(header)
+        htxt = re.sub(r', (?=[)\]>])', '', htxt)       # a trailing comma in a parameter or argument list
         if kw in ('fn', 'impl', 'struct', 'trait'):
             try: htxt = canon_generics(htxt.split(' '))
             except Exception: pass
@@ -211,6 +212,10 @@ def skeleton(repo, report):
 def main():
     repo = sys.argv[1]; report = json.load(open(sys.argv[2]))
     sk, names = skeleton(repo, report)
+    ren = report.get('renamed') or {}
+    if ren and '--pin' not in sys.argv:
+        # renames the function translator has recognised (fresh identifier, same type, same signature): compare under the old names
+        sk = dict((f, sorted(' '.join(ren.get(w, w) for w in x.split(' ')) for x in items)) for f, items in sk.items())
     if '--pin' in sys.argv:
         idents = set()
         for dp, _, fns in os.walk(os.path.join(repo, 'src')):
